@@ -12,7 +12,7 @@ namespace {
 struct C07 : RBase {
   const char* id() const override { return "C07"; }
   const char* level() const override { return "fault_enumeration"; }
-  long budget(const std::string& tier) const override { return tier == "thorough" ? 400000 : 5000; }
+  long budget(const std::string& tier) const override { return tier == "thorough" ? 100000 : 5000; }
   std::string rule() const override {
     return "plan = generated program skeleton (nestings up to depth 3 of begin/exception with handlers OUT_OF_RANGE, DIVIDE_BY_ZERO, user names, OTHERS in every order, for, forall, "
            "while, if, function calls from inside loops inside blocks) with vf fault points at expression positions (loop headers, conditions, call arguments, handler bodies, "
